@@ -228,6 +228,8 @@ class Driver:
             return None
         c = st.c
         fl = op.get('fl', 0)
+        if k != 'send':
+            self.flush_joined(st)        # nothing stays held back across another kind of operation
         if k == 'aclose':
             # abrupt close, no farewell ping; was the line already dead?
             waseof = False
@@ -319,6 +321,8 @@ class Driver:
         if op.get('dst') is not None:
             d = self.resolve(op['dst'])
             if d is None:
+                # the operation is dropped; a message that was waiting to be written together with it goes out now
+                self.flush_joined([x for x in self.slots.values() if x.c is c][0])
                 return None
             op = dict(op, dst=d)
         f = {}
@@ -350,23 +354,29 @@ class Driver:
         st = [x for x in self.slots.values() if x.c is c][0]
         st.joined.append((data, fds))
         if not op.get('join'):
-            blob = b''.join(d for d, _f in st.joined)
-            allfds = [x for _d, fl_ in st.joined for x in fl_]
-            cut = op.get('split')
-            if cut and 0 < cut < len(blob):
-                # the descriptors travel with the first chunk; the rest follows in a separate write
-                c.send_raw(blob[:cut], allfds or None)
-                time.sleep(0.003)
-                c.send_raw(blob[cut:])
-            else:
-                c.send_raw(blob, allfds or None)
-            for x in allfds:
-                os.close(x)
-            st.joined = []
+            self.flush_joined(st, op.get('split'))
         return {'k': 'send', 'ser': ser, 'fl': fl, 'ty': ty, 'att': toks, 'dst': B(_txt(op.get('dst'))), 'rs': op.get('rs', 0),
                 'path': Bp(_txt(op.get('path'))), 'ifc': B(_txt(op.get('ifc'))), 'mem': B(_txt(op.get('mem'))),
                 'err': B(_txt(op.get('err'))), 'sig': B(sig), 'args': norm_args(sig, body), 'nfd': nfd,
                 'forged': bool(forge), 'fsnd': B(forge.get('sender')), '_': '%s %s %s.%s' % (ty, op.get('dst'), op.get('ifc'), op.get('mem'))}
+
+    def flush_joined(self, st, cut=None):
+        """write the messages of this client that were held back to share one write"""
+        if not st.joined or st.c is None:
+            return
+        c = st.c
+        blob = b''.join(d for d, _f in st.joined)
+        allfds = [x for _d, fl_ in st.joined for x in fl_]
+        if cut and 0 < cut < len(blob):
+            # the descriptors travel with the first chunk; the rest follows in a separate write
+            c.send_raw(blob[:cut], allfds or None)
+            time.sleep(0.003)
+            c.send_raw(blob[cut:])
+        else:
+            c.send_raw(blob, allfds or None)
+        for x in allfds:
+            os.close(x)
+        st.joined = []
 
     # -- reading
     def read_until(self, s, serial, obs, timeout=8.0):
